@@ -131,6 +131,11 @@ def judgeCase (_k : Nat) (lines : List String) : Verdict := Id.run do
   let tinks := (mws.filter (· == .tink)).length
   let emptyReachesSql := base == "sql" && mws.all isPassThrough
   let outboxBelowEc := ((mws.dropWhile (fun m => !isEc m)).any (· == .outbox))
+  let tinksBelowEc := ((mws.dropWhile (fun m => !isEc m)).filter (· == .tink)).length
+  -- Three or more sequential tink layers below an erasure-coding layer: the lower two make every shard stream
+  -- fail (known finding), and how far the third gets before it fails depends on tink's segmentation, which this
+  -- abstract model does not have (Model/TinkSeek does). The judge still applies; the tie is not attempted.
+  let tieOff := hasEc && tinksBelowEc ≥ 3
   let mut s := S.init
   let mut s2 := S2.init
   let mut live : List (Nat × Bytes) := []       -- the judge's reference map
@@ -165,8 +170,10 @@ def judgeCase (_k : Nat) (lines : List String) : Verdict := Id.run do
       let m := view mobs
       let m2 := view mobs2
       if m.1 != m2.1 then stats := bump "get_depends_on_compress_decision" stats
-      if m.1 != o && m2.1 != o then div := div ++ [s!"op{idx}:get-{i}:model={showObs m.1}|{showObs m2.1},impl={showObs o}"]
-      if m.2 != ln.panicked && m2.2 != ln.panicked then div := div ++ [s!"op{idx}:get-{i}:model-panic={m.2},impl-panic={ln.panicked}"]
+      if tieOff then stats := bump "get_not_predicted" stats
+      else
+        if m.1 != o && m2.1 != o then div := div ++ [s!"op{idx}:get-{i}:model={showObs m.1}|{showObs m2.1},impl={showObs o}"]
+        if m.2 != ln.panicked && m2.2 != ln.panicked then div := div ++ [s!"op{idx}:get-{i}:model-panic={m.2},impl-panic={ln.panicked}"]
       -- judge
       let expect := (live.find? (·.1 == i)).map (·.2)
       match expect, o with
@@ -174,7 +181,9 @@ def judgeCase (_k : Nat) (lines : List String) : Verdict := Id.run do
         if b == c then
           roundTrips := roundTrips + 1
           stats := bump "get_live_ok" stats
-        else vio := vio ++ [("C15.get-returned-different-bytes", s!"op{idx}:get-{i}:expected-{c.length}-bytes,got-{b.length}-bytes")]
+        else
+          let ctx := if hasEc && tinksBelowEc ≥ 2 && b.isEmpty then ".empty-result.double-tink-below-erasure-coding" else ""
+          vio := vio ++ [("C15.get-returned-different-bytes" ++ ctx, s!"op{idx}:get-{i}:expected-{c.length}-bytes,got-{b.length}-bytes")]
       | some c, some none =>
         let ctx := if c.isEmpty && emptyReachesSql then ".empty-content-reaches-sql-store" else ""
         vio := vio ++ [("C15.live-part-not-found" ++ ctx, s!"op{idx}:get-{i}:live-part-of-{c.length}-bytes-answered-not-found")]
@@ -187,7 +196,8 @@ def judgeCase (_k : Nat) (lines : List String) : Verdict := Id.run do
         let ctx := if hasEc && b.isEmpty then ".empty-result-through-erasure-coding" else ""
         vio := vio ++ [("C15.absent-part-readable" ++ ctx, s!"op{idx}:get-{i}:absent-part-answered-{b.length}-bytes")]
       | none, none =>
-        vio := vio ++ [("C15.absent-part-error-instead-of-not-found", s!"op{idx}:get-{i}")]
+        let ctx := if hasEc && tinks ≥ 2 && ghosted.contains i then ".ghost-part-behind-double-tink" else ""
+        vio := vio ++ [("C15.absent-part-error-instead-of-not-found" ++ ctx, s!"op{idx}:get-{i}")]
       if ln.panicked then
         let ctx := if hasEc && outboxBelowEc && !tx then ".ec-heal-without-tx-over-outbox" else ""
         vio := vio ++ [("C15.panic-in-shard-store-call" ++ ctx, s!"op{idx}:get-{i}")]
@@ -199,7 +209,7 @@ def judgeCase (_k : Nat) (lines : List String) : Verdict := Id.run do
       let m2 := match mobs2 with
         | .ids ml => sortNat ml
         | _ => []
-      if m != sortNat l && m2 != sortNat l then div := div ++ [s!"op{idx}:ids:model={m},impl={l}"]
+      if !tieOff && m != sortNat l && m2 != sortNat l then div := div ++ [s!"op{idx}:ids:model={m},impl={l}"]
       let want := sortNat (live.map (·.1))
       if unknown then vio := vio ++ [("C15.ids-lists-foreign-id", s!"op{idx}")]
       if dups then vio := vio ++ [("C15.ids-duplicates", s!"op{idx}")]
